@@ -234,6 +234,7 @@ func checkC12(c *Ctx) {
 	c.checkCalculateSize("O6 calculate-size")
 	// ---- O7 what is sized is what is emitted: shared tag slices are never appended to in place ------
 	c.checkSharedTagSlices("O7 shared-tags")
+	c.checkOwnResourcePool("O8 own-resource-pool")
 }
 
 // cellOfAny: v is a load of a local cell (single- or multi-store).
@@ -753,4 +754,70 @@ func (c *Ctx) checkSharedTagSlices(rule string) {
 		})
 	}
 	c.floor(rule, n, 4)
+}
+
+// checkOwnResourcePool (O8): the objects a reporter measures sizes with - the size-calculating
+// protocol taken from its resource pool - are built for THIS reporter from the protocol factory it
+// also emits with: the pool stored in the reporter comes out of a constructor call (every return a
+// fresh allocation) that is handed the very factory value the client is built from. A pool shared
+// between reporters (a package-level singleton) measures with whichever protocol came first: a Binary
+// reporter then charges Compact sizes and overruns the packet limit.
+func (c *Ctx) checkOwnResourcePool(rule string) {
+	const pk = "m3"
+	ctor := c.fn(pk, "", "NewReporter")
+	fPool := c.field(pk, "reporter", "resourcePool")
+	if ctor == nil || fPool == nil {
+		c.missing(rule, "m3.NewReporter / reporter.resourcePool")
+		return
+	}
+	key := c.fnKey(ctor)
+	c.sawFunc(key)
+	var poolVal ssa.Value
+	instrsOf(ctor, func(in ssa.Instruction) {
+		if st, ok := in.(*ssa.Store); ok {
+			if f, _ := addrField(st.Addr); f == fPool {
+				poolVal = canon(stripConv(st.Val))
+			}
+		}
+	})
+	call, isCall := poolVal.(*ssa.Call)
+	if !isCall {
+		c.bad(rule, key, ctor.Pos(), "the reporter's resource pool is not the result of a constructor call made in NewReporter")
+		return
+	}
+	g := staticCallee(call)
+	fresh := g != nil && c.inModule(g) && g.Blocks != nil
+	if fresh {
+		k := 0
+		for _, r := range returnsOf(g) {
+			for _, va := range resultValues(r, 0) {
+				k++
+				if al, ok := canon(stripConv(va.Val)).(*ssa.Alloc); !ok || al.Parent() != g {
+					fresh = false
+				}
+			}
+		}
+		fresh = fresh && k > 0
+	}
+	if !fresh {
+		c.bad(rule, key, call.Pos(), "the resource pool (which supplies the size-calculating protocol) is not freshly built for this reporter: a pool shared between reporters measures with the protocol of whichever reporter created it, so a reporter using the other wire protocol charges sizes that are too small and its datagrams exceed the configured maximum", c.describe(call))
+		return
+	}
+	// the factory handed to the pool constructor is the one the client emits with
+	var clientFac ssa.Value
+	instrsOf(ctor, func(in ssa.Instruction) {
+		if cc, ok := in.(*ssa.Call); ok {
+			if h := staticCallee(cc); h != nil && h.Name() == "NewM3ClientFactory" && len(cc.Call.Args) == 2 {
+				clientFac = canon(stripConv(cc.Call.Args[1]))
+			}
+		}
+	})
+	same := false
+	for _, a := range call.Call.Args {
+		if clientFac != nil && canon(stripConv(a)) == clientFac {
+			same = true
+		}
+	}
+	c.check(same, rule, key, call.Pos(), "the pool is built in NewReporter from the same protocol factory the client emits with",
+		"the resource pool is not built from the protocol factory the client emits with: sizes are measured with a different wire protocol than the one used on the wire", c.describe(call))
 }
